@@ -2,7 +2,7 @@ SPEC = dict(
     id="C44",
     bin="c44",
     cases_quick=1600,
-    cases_thorough=60000,
+    cases_thorough=30000,
     level="proof",
     technique="Coq model of validate_path / validate_and_init and of revertible_swap -> revertible_swap_for_one_side -> swap_along_the_path / swap_with_current over an abstract single-market swap, with theorems on path order, token chain, rejection of duplicates / no-op steps and conservation of recorded balances + differential correspondence against the REAL SwapMarkets::revertible_swap running on real Market accounts (real gmsol-model swaps, real Bank layer, real Oracle), per-hop amounts read from the emitted SwapExecuted events",
     text="A successful swap executes exactly the declared markets in order, each hop taking the previous hop's output token and amount, ends in the declared token, never accepts duplicate markets or no-op (pure market) steps at creation or execution, and moves recorded balances only by paired record_transferred_out/in of the swapped amount, so every token's total recorded balance over the markets involved is unchanged.",
